@@ -874,6 +874,10 @@ def _corpus():
         # defect #10 (fixed): nm * sz wrapped
         ["aalloc a0 4611686018427387905 4 -", "asize a0", "aat a0 7"],
         ["aalloc a0 M M -", "asize a0"],
+        # both factors just above 2^32: the product wraps to a value that is larger than either factor
+        # (a guard of the form "wrapped if the product is smaller than a factor" misses it)
+        ["aalloc a0 4294967297 4294967297 -", "asize a0", "adata a0"],
+        ["aalloc a0 4294967311 4294967299 -", "asize a0"],
         # defect #11 (fixed): off + end wrapped in slice
         ["aalloc a0 4 4 -", "aslice a0 2 4 a0", "aslice a0 M-2 M a1", "asize a1", "aat a1 0"],
         ["aalloc a0 4 4 -", "aslice a0 2 4 a1", "aslice a1 M-2 M a1"],
